@@ -2,6 +2,7 @@ package main
 
 import (
 	"encoding/binary"
+	"encoding/hex"
 	"fmt"
 	"io"
 	"runtime"
@@ -74,6 +75,15 @@ func newWorld(sc *Scenario) (*world, error) {
 		w.byXid[0xfffffff0] = fs
 		w.frames = append(w.frames, fs)
 		data = append(data, b[:sc.Trailer]...)
+	}
+	if sc.Tail != "" {
+		tb, err := hex.DecodeString(sc.Tail)
+		if err != nil {
+			return nil, err
+		}
+		w.tailStart = len(data)
+		data = append(data, tb...)
+		w.faults.Add("desync_tail", 1)
 	}
 	c := &simConn{w: w, data: data, failAt: -1, emptyAt: map[int]bool{}}
 	for _, e := range sc.EmptyReads {
@@ -361,7 +371,7 @@ func (w *world) finish(res simrt.Result) {
 				w.violate("delivery", "frame-lost", "", fmt.Sprintf("%d complete frame(s) never delivered although the consumer kept reading; first: xid=%#x (%s, %d bytes, complete at byte %d of %d read), %s", lost, first.f.Xid, first.f.Kind, len(first.data), first.end, w.conn.pos, what))
 			}
 		}
-		if w.nilDelivered != nilParsed && lost == 0 {
+		if w.nilDelivered != nilParsed && lost == 0 && sc.Tail == "" {
 			w.violate("delivery", "nil-delivery-mismatch", "", fmt.Sprintf("%d nil messages delivered, %d frames parsed to nil", w.nilDelivered, nilParsed))
 		}
 	}
